@@ -41,14 +41,22 @@ int ext2fs_test_generic_bmap(ext2fs_generic_bitmap bmap, __u64 arg)
 	if ((void *) bmap == (void *) &vf_regmap) return IN.in_reg & 1;
 	return IN.in_bad & 1;
 }
-/* STUB: e2fsck_read_inode() returns an inode whose mode is the symbolic IN.mode */
-void e2fsck_read_inode(e2fsck_t ctx, unsigned long ino, struct ext2_inode *inode, const char *proc)
+/* STUB: ext2fs_read_inode() (called by the real e2fsck_read_inode of util.c) succeeds with an inode whose mode is the symbolic IN.mode */
+errcode_t ext2fs_read_inode(ext2_filsys fs, ext2_ino_t ino, struct ext2_inode *inode)
 {
 	static struct ext2_inode z;
-	(void) ctx; (void) ino; (void) proc;
+	(void) fs; (void) ino;
 	*inode = z;
 	inode->i_mode = IN.mode;
+	return 0;
 }
+#if KERNEL == 1
+#include "env.c"
+#ifndef VF_REPLAY
+/* STUB: gettext() returns its argument */
+char *gettext(const char *s) { return (char *) s; }
+#endif
+#endif
 
 /* Documentation/filesystems/ext4: file type code of a dirent for an inode mode */
 static int ref_ftype(unsigned int mode)
